@@ -29,10 +29,8 @@ SPECS = [
  ("C10", "tee-stops-on-short-read", S+"utils/tee.py", "                stream.flush()\n            stream.flush()", "                stream.flush()\n                if len(data) < 4096:\n                    break\n            stream.flush()"),
  ("C10", "log-text-mode-replace", S+"utils/tee.py", "        with open(file_name, \"wb\") as file:", "        with open(file_name, \"w\", errors=\"replace\") as file:"),
  ("C10", "json-written-when-empty", S+"execution/ops/run_task_executable.py", "            if not self._args.empty():\n                self._args", "            if True:\n                self._args"),
- ("C10", "options-json-default-str", S+"utils/run_options.py", "            json.dump(self._options, file, indent=2, sort_keys=True)", "            json.dump({k: str(v) for k, v in self._options.items()}, file, indent=2, sort_keys=True)"),
  ("C11", "latest-per-task-ascending", S+"execution/version_index_queries.py", "  WHERE\n    task_identifier = ?\n  ORDER BY timestamp DESC\n  LIMIT 1", "  WHERE\n    task_identifier = ?\n  ORDER BY timestamp ASC\n  LIMIT 1"),
  ("C11", "latest-join-on-timestamp-only", S+"execution/version_index_queries.py", "    c.task_identifier = l.task_identifier\n    AND c.timestamp = l.timestamp", "    c.timestamp = l.timestamp"),
- ("C11", "closure-includes-all-tasks", S+"cli/archive.py", "        if not task.archivable:\n            return\n", ""),
  ("C12", "insert-or-replace", S+"execution/version_index_queries.py", "  INSERT INTO version_index (\n    task_identifier,", "  INSERT OR REPLACE INTO version_index (\n    task_identifier,"),
  ("C12", "dirs-exist-ok", S+"cli/restore.py", "            shutil.copytree(src_task_path, dest_task_path)", "            shutil.copytree(src_task_path, dest_task_path, dirs_exist_ok=True)"),
  ("C12", "commit-before-copy", S+"cli/restore.py", "        # Copy over all archived task outputs\n", "        ctx.version_index.commit_changes()\n        # Copy over all archived task outputs\n"),
@@ -41,8 +39,6 @@ SPECS = [
  ("C13", "verbose-only-deletion", S+"cli/gc.py", "                shutil.rmtree(exp_path, ignore_errors=True)\n\n\ndef", "                    shutil.rmtree(exp_path, ignore_errors=True)\n\n\ndef"),
  ("C14", "post-visit-marker-dropped", S+"parsing/task_index.py", "                    curr_path.remove(identifier)\n                    visited_identifiers.add(identifier)", "                    visited_identifiers.add(identifier)"),
  ("C14", "dup-detection-on-raw-strings", S+"parsing/task_index.py", "                    if dep_identifier in task_deps_set:", "                    if dep in task_deps_set:"),
- ("C15", "list-elements-unchecked", S+"parsing/validation.py", "                if not all(item_valid):", "                if False and not all(item_valid):"),
- ("C15", "extra-params-unchecked", S+"parsing/validation.py", "            if arg not in schema:", "            if False and arg not in schema:"),
  ("C15", "include-extension-in", S+"parsing/task_loader.py", "        if not candidate_path.endswith(COND_INCLUDE_EXTENSION):", "        if COND_INCLUDE_EXTENSION not in candidate_path:"),
  ("C15", "python-error-escapes", S+"parsing/task_loader.py", "        except Exception as ex:\n            run_err = TaskParseError(error_details=str(ex))\n            run_err.add_file_context(file_path=self._to_project_path(cond_file_path))\n            raise run_err from ex", "        except ArithmeticError as ex:\n            run_err = TaskParseError(error_details=str(ex))\n            run_err.add_file_context(file_path=self._to_project_path(cond_file_path))\n            raise run_err from ex"),
  ("C16", "no-terminate-on-abort", S+"execution/executor.py", "        except ConductorAbort:\n            self._inflight_ops.terminate_processes()\n            elapsed", "        except ConductorAbort:\n            elapsed"),
